@@ -1,6 +1,256 @@
 import NpsVerif.Model.RunLength
+import NpsVerif.Props.C14Assumed
+import NpsVerif.Proofs.RLArithBinop
+import NpsVerif.Proofs.RLArithClean
+import NpsVerif.Proofs.RLArithOps
 namespace Props.C16
 open Model Model.RLA
-/-- sanity instance; the universally quantified theorems are added as they are proved -/
+variable {α β γ : Type}
+
+/-- sanity instance -/
 theorem decode_example : (RLA.mk [0, 2, 5, 6] [7, 8, 9]).decode = [7, 7, 8, 8, 8, 9] := by decide
+
+/-- the clean-up tail (`remove_empty_intervals`, `join_runs`, constructor) keeps the dense list -/
+theorem finish_spec (eq : γ → γ → Bool) (heq : ∀ x y, eq x y = true → x = y) (ev : List Nat) (vs : List γ)
+    (D : List γ) (hn : 0 < D.length) (hs : ev.Pairwise (· ≤ ·)) (hlen : ev.length = vs.length + 1)
+    (hle : ∀ e ∈ ev, e ≤ D.length) (hd : dec ev vs = D) :
+    ∃ r, finish eq ev vs = some r ∧ r.Valid ∧ r.decode = D := by
+  obtain ⟨h1, h2, h3⟩ := Props.C14.C14_removeEmpty_decode ev vs hlen hs
+  rw [decode_eq_dec, decode_eq_dec, hd] at h1
+  have h3' := (strictInc_iff _).1 h3
+  have hsub : ∀ e ∈ (removeEmpty ev vs).1, e ≤ D.length := by
+    intro e he
+    exact hle e ((deleteIdx_sublist ev _).subset he)
+  have hhead := head_zero_of_dec_length _ _ D.length hn h3' h2 hsub (by rw [h1])
+  have hvalid : (RLA.mk (removeEmpty ev vs).1 (removeEmpty ev vs).2).Valid :=
+    (valid_iff _).2 ⟨hhead, h2, h3'⟩
+  obtain ⟨h4, h5⟩ := Props.C14.C14_joinRuns_decode eq heq _ hvalid
+  simp only [] at h4 h5
+  refine ⟨_, ?_, h5, ?_⟩
+  · unfold finish mk?
+    exact if_pos h5
+  · rw [h4, decode_eq_dec, h1]
+
+/-- HEADLINE: binary ufunc of two run-length arrays with unrelated boundaries (f has no laws) -/
+theorem C16_binary (f : α → β → γ) (eq : γ → γ → Bool) (heq : ∀ x y, eq x y = true → x = y)
+    (x : RLA α) (y : RLA β) (hx : x.Valid) (hy : y.Valid) (hl : x.len = y.len) (hpos : 0 < x.len) :
+    ∃ r, binop f eq x y = some r ∧ r.Valid ∧ r.decode = List.zipWith f x.decode y.decode := by
+  obtain ⟨Tx, hxe, hTx⟩ := valid_split x hx hpos
+  obtain ⟨Ty, hye, hTy⟩ := valid_split y hy (by omega)
+  rw [← hl] at hye hTy
+  have hDn : (List.zipWith f x.decode y.decode).length = x.len := by
+    rw [List.length_zipWith, decode_length x hx, decode_length y hy, ← hl]; simp
+  have hB := binEvents_eq x y x.len Tx Ty hxe hye
+  have hV := binValues_eq f x y hx hy x.len rfl hl.symm hpos Tx Ty hxe hye hTx hTy
+  rw [← hDn] at hB
+  have hxmem : ∀ p, 0 < p → p < x.len → p ∉ (0 :: Tx ++ Ty) → p ∉ x.events ∧ p ∉ y.events := by
+    intro p h0 hp hnm
+    rw [hxe, hye]
+    simp only [List.cons_append, List.mem_cons, List.mem_append, not_or, List.mem_nil_iff,
+      or_false] at hnm ⊢
+    exact ⟨⟨hnm.1, hnm.2.1, by omega⟩, hnm.1, hnm.2.2, by omega⟩
+  obtain ⟨E, hev, hvs, hperm, hsorted, hdec⟩ := merge_decode (List.zipWith f x.decode y.decode)
+    (0 :: Tx ++ Ty) (by simp)
+    (by
+      intro e he
+      rw [hDn]
+      rcases List.mem_cons.1 he with rfl | he
+      · exact hpos
+      · rcases List.mem_append.1 he with he | he
+        · exact (hTx e he).2
+        · exact (hTy e he).2)
+    (by
+      intro p h0 hp hnm
+      rw [hDn] at hp
+      obtain ⟨h1, h2⟩ := hxmem p h0 hp hnm
+      rw [List.getElem?_zipWith, List.getElem?_zipWith, decode_const x hx p h0 hp h1,
+        decode_const y hy p h0 (by omega) h2])
+  rw [binop_eq, if_neg (by simpa using hl), hB, hV, hev, hvs]
+  apply finish_spec eq heq _ _ _ (by omega) hsorted
+  · rw [length_filterMap_of_some]
+    · simp
+    · intro e he
+      have : e < (List.zipWith f x.decode y.decode).length := by
+        rw [hDn]
+        rcases List.mem_cons.1 ((hperm.mem_iff).1 he) with rfl | he
+        · exact hpos
+        · rcases List.mem_append.1 he with he | he
+          · exact (hTx e he).2
+          · exact (hTy e he).2
+      rw [List.getElem?_eq_getElem this]; rfl
+  · intro e he
+    rcases List.mem_append.1 he with he | he
+    · rw [hDn]
+      rcases List.mem_cons.1 ((hperm.mem_iff).1 he) with rfl | he
+      · omega
+      · rcases List.mem_append.1 he with he | he
+        · exact Nat.le_of_lt (hTx e he).2
+        · exact Nat.le_of_lt (hTy e he).2
+    · rw [List.mem_singleton.1 he]; exact Nat.le_refl _
+  · exact hdec
+
+/-- unequal lengths are refused -/
+theorem C16_binary_refuses (f : α → β → γ) (eq : γ → γ → Bool) (x : RLA α) (y : RLA β) (hl : x.len ≠ y.len) :
+    binop f eq x y = none := by
+  rw [binop_eq, if_pos hl]
+
+theorem finish_values (eq : γ → γ → Bool) (ev : List Nat) (vs : List γ) (r : RLA γ)
+    (h : finish eq ev vs = some r) :
+    r.values = (joinRuns eq (removeEmpty ev vs).1 (removeEmpty ev vs).2).2 := by
+  unfold finish mk? at h
+  split at h
+  · rw [← Option.some.inj h]
+  · exact absurd h (by simp)
+
+/-- the result of a binary ufunc is join-canonical w.r.t. the value test used.
+NOTE: the originally proposed statement had no hypothesis on `eq` and is FALSE
+(`C16_binary_canonical_counterexample` below); `hcongr` (right congruence of `eq`) is the added
+hypothesis.  It holds for every genuine equality test and for IEEE `==` (NaN, ±0 included). -/
+theorem C16_binary_canonical (f : α → β → γ) (eq : γ → γ → Bool)
+    (hcongr : ∀ a b c, eq b a = true → eq c b = eq c a)
+    (x : RLA α) (y : RLA β) (r : RLA γ)
+    (h : binop f eq x y = some r) :
+    ∀ i, ∀ u v, r.values[i]? = some u → r.values[i+1]? = some v → eq v u = false := by
+  intro i u v hu hv
+  rw [binop_eq] at h
+  split at h
+  · exact absurd h (by simp)
+  · rw [finish_values eq _ _ r h] at hu hv
+    exact adjOK_getElem eq _ (joinRuns_canonical eq hcongr _ _) i u v hu hv
+
+/-- corollary: `eq` a genuine equality test (the hypothesis of `C16_binary`) -/
+theorem C16_binary_canonical_of_eq (f : α → β → γ) (eq : γ → γ → Bool)
+    (heq : ∀ x y, eq x y = true → x = y) (x : RLA α) (y : RLA β) (r : RLA γ)
+    (h : binop f eq x y = some r) :
+    ∀ i, ∀ u v, r.values[i]? = some u → r.values[i+1]? = some v → eq v u = false :=
+  C16_binary_canonical f eq (fun a b c hab => by rw [heq b a hab]) x y r h
+
+/-- a non-transitive "closeness" test, for the counterexample -/
+def closeNat (a b : Nat) : Bool := decide (a - b ≤ 1 ∧ b - a ≤ 1)
+
+theorem stableArgsort_0123 : stableArgsort [0, 1, 2, 3] = [0, 1, 2, 3] := by
+  simp [stableArgsort, List.mergeSort, List.zipIdx]
+
+/-- COUNTEREXAMPLE to the canonical-form statement without a hypothesis on `eq`: with
+`eq a b := |a - b| ≤ 1`, `join_runs` drops the 2 (close to 3), keeps the 4 (not close to 2), and the
+result has the neighbours 3, 4 although `eq 4 3 = true`. -/
+theorem C16_binary_canonical_counterexample :
+    binop (fun a (_ : Nat) => a) closeNat ⟨[0, 1, 2, 3], [3, 2, 4]⟩ ⟨[0, 3], [0]⟩
+      = some ⟨[0, 2, 3], [3, 4]⟩ ∧
+    (RLA.mk [0, 2, 3] [3, 4]).values[0]? = some 3 ∧ (RLA.mk [0, 2, 3] [3, 4]).values[0 + 1]? = some 4 ∧
+    closeNat 4 3 = true := by
+  refine ⟨?_, by decide, by decide, by decide⟩
+  rw [binop_eq]
+  have hE : binEvents (RLA.mk [0, 1, 2, 3] [3, 2, 4]) (RLA.mk [0, 3] [0]) = [0, 1, 2, 3] := by decide
+  have hV : binValues (fun a (_ : Nat) => a) (RLA.mk [0, 1, 2, 3] [3, 2, 4]) (RLA.mk [0, 3] [0])
+      = [3, 2, 4] := by decide
+  rw [hE, hV, stableArgsort_0123]; decide
+
+/-- unary ufunc / scalar operand: decode commutes with map, boundaries unchanged, validity kept -/
+theorem C16_map (g : α → β) (r : RLA α) (h : r.Valid) :
+    ∃ r', r.mapValues g = some r' ∧ r'.Valid ∧ r'.decode = r.decode.map g ∧ r'.events = r.events := by
+  have hv := (valid_iff r).1 h
+  have hvalid : (RLA.mk r.events (r.values.map g)).Valid :=
+    (valid_iff _).2 ⟨hv.1, by simpa using hv.2.1, hv.2.2⟩
+  refine ⟨⟨r.events, r.values.map g⟩, ?_, hvalid, ?_, rfl⟩
+  · unfold mapValues mk?
+    exact if_pos hvalid
+  · rw [decode_eq_dec, dec_map, ← decode_eq_dec]
+
+set_option linter.unusedVariables false in
+/-- Σ length·value = Σ of the decoded cells (validity is not even needed) -/
+theorem C16_sum (r : RLA Int) (h : r.Valid) : r.sum = r.decode.sum := by
+  have hd : r.decode = dec r.events r.values := decode_eq_dec r.events r.values
+  rw [hd, ← sum_dec]
+  rfl
+
+/-- every run is non-empty, so reductions over run values see exactly the values of the cells -/
+theorem C16_values_mem (r : RLA α) (h : r.Valid) (v : α) : v ∈ r.values ↔ v ∈ r.decode := by
+  obtain ⟨rest, he⟩ := valid_cons r h
+  have hv := (valid_iff r).1 h
+  have hd : r.decode = dec r.events r.values := decode_eq_dec r.events r.values
+  rw [hd]
+  rw [he] at hv ⊢
+  exact mem_dec v 0 rest r.values hv.2.2 hv.2.1
+
+set_option linter.unusedVariables false in
+/-- concatenation (`hne` is not needed: the empty concatenation is `⟨[0], []⟩`) -/
+theorem C16_concat (rs : List (RLA α)) (h : ∀ r ∈ rs, r.Valid ∧ 0 < r.len) (hne : rs ≠ []) :
+    ∃ r', RLA.concat rs = some r' ∧ r'.Valid ∧ r'.decode = (rs.map decode).flatten := by
+  obtain ⟨c1, c2, c3, c4, _⟩ := concat_aux rs h 0
+  have hc : RLA.concat rs = mk? (evFrom 0 rs) ((rs.map (·.values)).flatten) := by
+    unfold RLA.concat evFrom Np.exclScan
+    simp only [Nat.zero_add]
+  have hvalid : (RLA.mk (evFrom 0 rs) ((rs.map (·.values)).flatten)).Valid :=
+    (valid_iff _).2 ⟨c1, c3, c2⟩
+  refine ⟨_, ?_, hvalid, ?_⟩
+  · rw [hc]; unfold mk?; exact if_pos hvalid
+  · rw [decode_eq_dec, c4]
+
+/-- interleaved boundaries (the stable sort really permutes) -/
+example : binop (fun a b => a + b) (fun a b => a == b) (RLA.mk [0, 4, 6] [1, 2]) (RLA.mk [0, 2, 6] [10, 20])
+      = some ⟨[0, 2, 4, 6], [11, 21, 22]⟩ ∧
+    (RLA.mk [0, 2, 4, 6] [11, 21, 22]).decode
+      = List.zipWith (fun a b => a + b) (RLA.mk [0, 4, 6] [1, 2]).decode (RLA.mk [0, 2, 6] [10, 20]).decode := by
+  refine ⟨?_, by decide⟩
+  rw [binop_eq]
+  have hE : binEvents (RLA.mk [0, 4, 6] [1, 2]) (RLA.mk [0, 2, 6] [10, 20]) = [0, 4, 2, 6] := by decide
+  have hV : binValues (fun a b => a + b) (RLA.mk [0, 4, 6] [1, 2]) (RLA.mk [0, 2, 6] [10, 20]) = [11, 22, 21] := by decide
+  have hS : stableArgsort [0, 4, 2, 6] = [0, 2, 1, 3] := by simp [stableArgsort, List.mergeSort, List.zipIdx]
+  rw [hE, hV, hS]; decide
+
+/-- coincident boundaries (the first copy of the duplicate boundary is dropped) -/
+example : binop (fun a b => a + b) (fun a b => a == b) (RLA.mk [0, 2, 4] [1, 2]) (RLA.mk [0, 2, 4] [10, 20])
+      = some ⟨[0, 2, 4], [11, 22]⟩ ∧
+    (RLA.mk [0, 2, 4] [11, 22]).decode
+      = List.zipWith (fun a b => a + b) (RLA.mk [0, 2, 4] [1, 2]).decode (RLA.mk [0, 2, 4] [10, 20]).decode := by
+  refine ⟨?_, by decide⟩
+  rw [binop_eq]
+  have hE : binEvents (RLA.mk [0, 2, 4] [1, 2]) (RLA.mk [0, 2, 4] [10, 20]) = [0, 2, 2, 4] := by decide
+  have hV : binValues (fun a b => a + b) (RLA.mk [0, 2, 4] [1, 2]) (RLA.mk [0, 2, 4] [10, 20]) = [11, 22, 22] := by decide
+  have hS : stableArgsort [0, 2, 2, 4] = [0, 1, 2, 3] := by simp [stableArgsort, List.mergeSort, List.zipIdx]
+  rw [hE, hV, hS]; decide
+
+/-- nested runs -/
+example : binop (fun a b => a + b) (fun a b => a == b) (RLA.mk [0, 1, 5, 6] [1, 2, 3]) (RLA.mk [0, 2, 3, 6] [10, 20, 30])
+      = some ⟨[0, 1, 2, 3, 5, 6], [11, 12, 22, 32, 33]⟩ ∧
+    (RLA.mk [0, 1, 2, 3, 5, 6] [11, 12, 22, 32, 33]).decode
+      = List.zipWith (fun a b => a + b) (RLA.mk [0, 1, 5, 6] [1, 2, 3]).decode (RLA.mk [0, 2, 3, 6] [10, 20, 30]).decode := by
+  refine ⟨?_, by decide⟩
+  rw [binop_eq]
+  have hE : binEvents (RLA.mk [0, 1, 5, 6] [1, 2, 3]) (RLA.mk [0, 2, 3, 6] [10, 20, 30]) = [0, 1, 5, 2, 3, 6] := by decide
+  have hV : binValues (fun a b => a + b) (RLA.mk [0, 1, 5, 6] [1, 2, 3]) (RLA.mk [0, 2, 3, 6] [10, 20, 30]) = [11, 12, 33, 22, 32] := by decide
+  have hS : stableArgsort [0, 1, 5, 2, 3, 6] = [0, 1, 3, 4, 2, 5] := by simp [stableArgsort, List.mergeSort, List.zipIdx]
+  rw [hE, hV, hS]; decide
+
+/-- coincident boundaries and equal results: runs are joined -/
+example : binop (fun a b => a + b) (fun a b => a == b) (RLA.mk [0, 2, 4] [1, 2]) (RLA.mk [0, 2, 4] [20, 19])
+      = some ⟨[0, 4], [21]⟩ ∧
+    (RLA.mk [0, 4] [21]).decode
+      = List.zipWith (fun a b => a + b) (RLA.mk [0, 2, 4] [1, 2]).decode (RLA.mk [0, 2, 4] [20, 19]).decode := by
+  refine ⟨?_, by decide⟩
+  rw [binop_eq]
+  have hE : binEvents (RLA.mk [0, 2, 4] [1, 2]) (RLA.mk [0, 2, 4] [20, 19]) = [0, 2, 2, 4] := by decide
+  have hV : binValues (fun a b => a + b) (RLA.mk [0, 2, 4] [1, 2]) (RLA.mk [0, 2, 4] [20, 19]) = [21, 21, 21] := by decide
+  have hS : stableArgsort [0, 2, 2, 4] = [0, 1, 2, 3] := by simp [stableArgsort, List.mergeSort, List.zipIdx]
+  rw [hE, hV, hS]; decide
+
+/-- one operand a single run -/
+example : binop (fun a b => a + b) (fun a b => a == b) (RLA.mk [0, 6] [1]) (RLA.mk [0, 2, 4, 6] [10, 20, 30])
+      = some ⟨[0, 2, 4, 6], [11, 21, 31]⟩ ∧
+    (RLA.mk [0, 2, 4, 6] [11, 21, 31]).decode
+      = List.zipWith (fun a b => a + b) (RLA.mk [0, 6] [1]).decode (RLA.mk [0, 2, 4, 6] [10, 20, 30]).decode := by
+  refine ⟨?_, by decide⟩
+  rw [binop_eq]
+  have hE : binEvents (RLA.mk [0, 6] [1]) (RLA.mk [0, 2, 4, 6] [10, 20, 30]) = [0, 2, 4, 6] := by decide
+  have hV : binValues (fun a b => a + b) (RLA.mk [0, 6] [1]) (RLA.mk [0, 2, 4, 6] [10, 20, 30]) = [11, 21, 31] := by decide
+  have hS : stableArgsort [0, 2, 4, 6] = [0, 1, 2, 3] := by simp [stableArgsort, List.mergeSort, List.zipIdx]
+  rw [hE, hV, hS]; decide
+
+example : binop (fun a b => a + b) (fun a b => a == b) (RLA.mk [0, 2] [1]) (RLA.mk [0, 3] [1]) = none := by decide
+example : (RLA.mk [0, 2, 5] [3, 4]).mapValues (· * 2) = some ⟨[0, 2, 5], [6, 8]⟩ := by decide
+example : (RLA.mk [0, 2, 5] [3, -4]).sum = -6 := by decide
+example : RLA.concat [⟨[0, 2, 3], [1, 2]⟩, ⟨[0, 1], [5]⟩, (⟨[0, 2, 4], [7, 8]⟩ : RLA Nat)]
+    = some ⟨[0, 2, 3, 4, 6, 8], [1, 2, 5, 7, 8]⟩ := by decide
+
 end Props.C16
